@@ -192,6 +192,17 @@ func genEngine(rng *Rng, workdir string, proj string, cfg engCfg) *engSession {
 					s.make(i, pl.slot, now+5000, pl.issuedVersion)
 				}
 			}
+			// a through check-in whose first flight is an old one reported late while the traveller is between
+			// trips and not in debt (the later flights are then judged after the first was debited)
+			if !cfg.strictDaily && rng.Chance(1, 6) {
+				if t, ok := s.get(i); ok && !t.MidTrip() && t.Balance >= 0 {
+					a, b := rng.Intn(nAir), rng.Intn(nAir)
+					old := mk(day-uint64(rng.Range(2, 6)), uint64(rng.Intn(50000)), a, b, dist())
+					cur := mk(day, uint64(rng.Intn(50000)), b, rng.Intn(nAir), dist())
+					s.submit(i, []flap.VerifFlight{old, cur}, day*86400+100, true)
+					s.stat["late_first_flight_submissions"]++
+				}
+			}
 			// unplanned flights
 			r := rng.Intn(20)
 			switch {
